@@ -38,3 +38,16 @@ def only_touch_bad(line, detail):
     impl = _fields(line.split(" -> ", 1)[1]); model = _fields(detail)
     bad = [k for k in model if k in impl and k not in ("first", "touch_first") and model[k] != impl[k]]
     return bad == ["touch_bad"] and impl.get("panics") == "0" and impl.get("touch_panics") == "0" and impl.get("full_noterr") == "0"
+
+
+def pco_alloc_failure(line, detail):
+    """C15, pcodec: the child process aborted (allocation failure), or the only requirement missed is panics=0 and the
+    first panic was raised in the allocator's capacity check / inside the pco crate (a size taken from a corrupted header)"""
+    if line.endswith(" -> abort"):
+        return True
+    if " -> sum " not in line:
+        return False
+    impl = _fields(line.split(" -> ", 1)[1]); model = _fields(detail)
+    bad = [k for k in model if k in impl and k not in ("first",) and model[k] != impl[k]]
+    ploc = impl.get("ploc", "")
+    return bad == ["panics"] and ("raw_vec" in ploc or "/pco" in ploc or "pco-" in ploc)
